@@ -47,7 +47,8 @@ where
             func,
             call_count,
             current_index: 0,
-            done: false,
+            // Nothing to wait for if none of the calls expects a reply.
+            done: call_count == 0,
             _phantom: core::marker::PhantomData,
         }
     }
